@@ -29,7 +29,7 @@ func (s scen) run(c *hx.Ctx) *hx.ScenarioResult {
 	defer cleanup()
 	fi := s.FailingInvocation()
 	body := s.Scen.Body(cfg, func(i int) bool { return i == fi || (s.F.Point == "idle" && i == fi-1) })
-	return hx.ExploreScenario(c, "C06", s.name(), sched.Options{Bound: s.bound, MaxSteps: 100000, BoundAll: true, NoEarlyClock: true}, body, s.judge)
+	return hx.ExploreScenario(c, "C06", s.name(), sched.Options{Bound: s.bound, MaxSteps: 100000, BoundAll: true, NoEarlyClock: true, HoldBack: true}, body, s.judge)
 }
 
 // expectation for the failing invocation, straight from the statement
